@@ -115,9 +115,17 @@ Definition signed (f : bytes -> option N) (l : bytes) : option Z :=
   | [] => None
   end.
 
-(* int(x) / int(x, 10): None = ValueError *)
+(* number of decimal digit characters (sign, underscores, blanks do not count) *)
+Definition ndigits (l : bytes) : N :=
+  fold_left (fun n x => if N.leb 48 x && N.leb x 57 then (n + 1)%N else n) l 0%N.
+
+(* int(x) / int(x, 10): None = ValueError.  CPython (sys.int_info.default_max_str_digits)
+   refuses decimal strings of more than 4300 digits, leading zeros included; there is
+   no such limit for base 16. *)
+Definition max_str_digits : N := 4300.
 Definition int10 (w : N -> bool) (l : bytes) : option Z :=
-  signed (fun t => digits_go digit10 10 t 0 false) (strip w l).
+  if N.ltb max_str_digits (ndigits (strip w l)) then None
+  else signed (fun t => digits_go digit10 10 t 0 false) (strip w l).
 
 (* after the sign: optional 0x / 0X and one optional underscore *)
 Definition strip_0x (t : bytes) : bytes :=
